@@ -123,7 +123,7 @@ Stk1Mid(lz) == UNION {StkCtx(x) \cup StkRep(x) : x \in StkOps}
 StkESetups == {SeqE(<<PushLit(<<a>>), PushLit(<<>>)>>), PushE(Opt(Str(<<b>>))), SeqE(<<PushLit(<<>>), PushE(Opt(AnyC))>>)}
 \* "stackdeep": two backtracking points nested - an inner construct that COMMITS stack changes inside an outer one that
 \* then fails (or is a predicate), followed by a probe;  r = { SETUP ~ OUTER(x1 ~ x2 ~ INNER(x3 ~ x4)) ~ PROBE }
-DeepOps == {DropT, PopT, PushLit(<<c>>), PushE(Str(<<a>>)), PeekT}
+DeepOps == {DropT, PopT, PushLit(<<c>>), PushE(Str(<<a>>)), PeekT, PopAllT}
 DeepInner(x, y, n) == CASE n = 1 -> Opt(SeqE(<<x, y>>)) [] n = 2 -> AltE(<<SeqE(<<x, y>>), Str(<<b>>)>>)
                         [] n = 3 -> AndP(SeqE(<<x, y>>)) [] n = 4 -> Star(SeqE(<<Str(<<a>>), x, y>>))
 DeepOuter(body, pr, n) == CASE n = 1 -> SeqE(<<AltE(<<SeqE(<<body, Str(<<c, c>>)>>), Str(<<>>)>>), pr>>)       \* alternative fails after the commit
@@ -162,6 +162,8 @@ FxRules(cfg) ==
     \* the same with a compound-atomic opener: its pair IS visible when the trivia matches, and must not be when it fails
     [] cfg = "cmrc"    -> [COMMENT |-> Rule("_", SeqE(<<Ref("co"), Star(SeqE(<<NotP(Str(<<gt>>)), AnyC>>)), Str(<<gt>>)>>)), co |-> Rule("$", Str(<<lt>>))]
     [] cfg = "wsrc"    -> [WHITESPACE |-> Rule("_", SeqE(<<Ref("v"), Str(<<gt>>)>>)), v |-> Rule("!", Str(<<sp>>))]
+    \* WHITESPACE that reaches a non-atomic rule: implicit trivia runs INSIDE the implicit rule (nested parse_trivia)
+    [] cfg = "wsna"    -> [WHITESPACE |-> Rule("_", AltE(<<Str(<<sp>>), SeqE(<<Ref("dn"), Str(<<gt>>)>>)>>)), dn |-> Rule("!", SeqE(<<Str(<<lt>>), Str(<<lt>>)>>))]
     [] cfg = "wspush"  -> [WHITESPACE |-> Rule("_", SeqE(<<Str(<<sp>>), PushLit(<<a>>)>>))]
     [] cfg = "wspushm" -> [WHITESPACE |-> Rule("_", PushE(Str(<<sp>>)))]
     [] cfg = "cmpop"   -> [WHITESPACE |-> Rule("_", Str(<<sp>>)), COMMENT |-> Rule("_", SeqE(<<Str(<<lt>>), DropT>>))]
@@ -170,7 +172,7 @@ FxG(body, cfg) == Merge([r |-> Rule("", body), s |-> Rule("", SeqE(<<Str(<<a>>),
 FxProbes == {SeqE(<<PeekAllT, Eoi>>), SeqE(<<DropT, DropT>>), PopT, SeqE(<<DropT, Eoi>>), NotP(DropT), SeqE(<<PeekT, PeekT>>)}
 FxStackBodies(lz) == {SeqE(<<x, pr>>) : x \in TrT2(0), pr \in FxProbes}
                      \cup {SeqE(<<PushLit(<<a>>), x, pr>>) : x \in TrT1 \cup Un(TrAtoms), pr \in FxProbes}
-FamTrivFx(lz) == {FxG(x, cfg) : x \in TrT2(0), cfg \in {"cmr", "wsr", "cmrc", "wsrc"}}
+FamTrivFx(lz) == {FxG(x, cfg) : x \in TrT2(0), cfg \in {"cmr", "wsr", "cmrc", "wsrc", "wsna"}}
                  \cup {FxG(x, cfg) : x \in FxStackBodies(0), cfg \in {"wspush", "wspushm", "cmpop"}}
 
 \* ---- family "ci": case-insensitive literals fold ASCII letters only (C03, C12, C02) -----------------
@@ -180,7 +182,10 @@ CiAtoms == {IStr(<<kk>>), IStr(<<KK>>), IStr(<<ss>>), IStr(<<kk, ss>>), IStr(<<s
             Str(<<kk>>), Str(<<ss>>), Str(<<xx>>), IStr(<<ss, ss>>), Rng(kk, ss)}
 CiBodies(lz) == CiAtoms \cup {AltE(<<x, y>>) : x \in CiAtoms, y \in CiAtoms} \cup {Plus(AltE(<<x, y>>)) : x \in CiAtoms, y \in CiAtoms}
                 \cup {SeqE(<<x, y, Eoi>>) : x \in CiAtoms, y \in CiAtoms} \cup {AltE(<<x, y, z>>) : x \in {IStr(<<kk, ss>>), IStr(<<ss>>), Str(<<kk>>)}, y \in CiAtoms, z \in {IStr(<<kk>>), Str(<<ss, ss>>), IStr(<<eszett>>)}}
-FamCi(lz) == {[r |-> Rule("", x)] : x \in CiBodies(0)}
+CiPush == {PushE(IStr(<<kk>>)), PushE(IStr(<<kk, ss>>)), PushE(AltE(<<IStr(<<ss>>), Str(<<xx>>)>>)), PushE(Opt(IStr(<<KK>>)))}
+CiStackBodies(lz) == {SeqE(<<p, q>>) : p \in CiPush, q \in {PopT, PeekT, SeqE(<<PeekT, PopT, Eoi>>), PeekAllT, SeqE(<<PopAllT, Eoi>>), PeekSl(FALSE, 0, FALSE, 0), Star(PeekT)}}
+                     \cup {SeqE(<<p, p2, q>>) : p \in CiPush, p2 \in CiPush, q \in {PeekAllT, SeqE(<<PopT, PopT>>)}}
+FamCi(lz) == {[r |-> Rule("", x)] : x \in CiBodies(0) \cup CiStackBodies(0)}
 CiAlpha == {kk, KK, kelvin, ss, SS, longs, eszett, Eszett}
 
 \* ---- family "bounds": every bounded repetition with small bounds, degenerate ones included (C03, C04, C07) ----
@@ -193,6 +198,19 @@ BdWF(e) == e.k # "minmax" \/ (e.m <= e.n /\ e.n - e.m <= 2)
 BdBodies(lz) == UNION {{rp, SeqE(<<Str(<<a>>), rp, Str(<<a>>)>>), SeqE(<<rp, Str(<<a>>)>>), SeqE(<<Str(<<a>>), rp>>), SeqE(<<rp, Eoi>>), Opt(SeqE(<<rp, Ref("s")>>))}
                        : rp \in UNION {{y \in BdReps(x) : BdWF(y)} : x \in BdOperands}}
 FamBounds(lz) == {TrG(x, m0, "", "", cfg) : x \in BdBodies(0), m0 \in {"", "@"}, cfg \in {"none", "ws", "WS", "cm"}}
+
+\* ---- family "sqesc": literals that PRINT alike (a line feed and backslash-n both show as \n in str(expr)) in squashable
+\*      choices - anything keyed by the printed form confuses them; and "sqws": the SAME choice as WHITESPACE (fused, repeated
+\*      SKIP rule) and as an ordinary alternative of the body - anything keyed by the alternatives alone confuses the two
+bsl == 92   tab == 9   nn == 110   tt == 116
+EscAtoms == {Str(<<nl>>), Str(<<bsl, nn>>), Str(<<tab>>), Str(<<bsl, tt>>), Str(<<a>>), IStr(<<bsl, nn>>), Str(<<bsl>>)}
+EscChoices(lz) == {AltE(<<x, y>>) : x \in EscAtoms, y \in EscAtoms} \cup {AltE(<<x, y, z>>) : x \in {Str(<<nl>>), Str(<<bsl, nn>>), Str(<<tab>>)}, y \in EscAtoms, z \in {Str(<<bsl, tt>>), Str(<<a>>), Str(<<nl>>)}}
+FamSqEsc(lz) == {[r |-> Rule("", bd), e |-> Rule("", ch2)] : bd \in UNION {{ch, SeqE(<<ch, Eoi>>), SeqE(<<Plus(ch), Ref("e")>>)} : ch \in EscChoices(0)},
+                                                            ch2 \in {AltE(<<Str(<<nl>>), Str(<<tab>>)>>), AltE(<<Str(<<bsl, nn>>), Str(<<bsl, tt>>)>>)}}
+WsPairs == {<<Str(<<sp>>), Str(<<tab>>)>>, <<Str(<<tab>>), Str(<<sp>>)>>, <<Str(<<sp>>), Str(<<nl>>)>>, <<Str(<<sp, sp>>), Str(<<tab>>)>>}
+SqWsBodies(x, y) == UNION {{SeqE(<<Str(<<a>>), ch, Str(<<a>>)>>), SeqE(<<Plus(Str(<<a>>)), ch, Eoi>>), SeqE(<<Str(<<a>>), Star(ch), Str(<<a>>)>>), SeqE(<<ch, ch>>), SeqE(<<Str(<<a>>), Str(<<a>>)>>)}
+                            : ch \in {AltE(<<x, y>>), AltE(<<y, x>>), AltE(<<x, y, Str(<<a>>)>>)}}
+FamSqWs(lz) == UNION {{[r |-> Rule(m, bd), WHITESPACE |-> Rule("_", AltE(<<wp[1], wp[2]>>))] : m \in {"", "@", "$"}, bd \in SqWsBodies(wp[1], wp[2])} : wp \in WsPairs}
 
 \* ---- family "tags": C01 (tags are compared between interpreter and generated code) ----
 \*   r = { BODY }   s = { "a" ~ "b"? }   v = _{ #t3 = s }     + silent WHITESPACE
@@ -305,6 +323,8 @@ Grammars ==
     [] Family = "trivfx"  -> FamTrivFx(0)
     [] Family = "ci"      -> FamCi(0)
     [] Family = "bounds"  -> FamBounds(0)
+    [] Family = "sqesc"   -> FamSqEsc(0)
+    [] Family = "sqws"    -> FamSqWs(0)
 
 Alpha ==
   CASE Family \in {"core2", "core3", "core2nosoi", "core3nosoi"} -> CoreAlpha
@@ -318,6 +338,8 @@ Alpha ==
     [] Family = "names" -> {a, b, sp}
     [] Family = "trivfx" -> TrAlpha
     [] Family = "bounds" -> {a, sp, lt, gt}
+    [] Family = "sqesc" -> {nl, tab, bsl, nn, tt, a}
+    [] Family = "sqws" -> {a, sp, tab, nl}
     [] Family = "ci" -> CiAlpha
 
 Inputs == Strings(Alpha, MaxLen)
